@@ -99,7 +99,14 @@ class ConnMan:
 
         This method should be called if `Bus.set()` or `Bus.alter()` is called.
         """
+        # buses recorded as turned off by an earlier call and not acted upon yet stay pending
+        pending_off = np.array(self.changes['off']) if self.is_needed else None
+
         self._update()
+
+        if pending_off is not None:
+            self.changes['off'][...] = np.logical_and(np.logical_or(self.changes['off'], pending_off),
+                                                      self.system.Bus.u.v == 0)
 
         if np.any(self.changes['on']):
             onbus_idx = [self.system.Bus.idx.v[i] for i in np.nonzero(self.changes["on"])[0]]
